@@ -12,7 +12,8 @@
       `documented_cells_reach`: so are the functions from which such a writer is reachable by direct calls.
   (3) `interleaving_irrelevant_cells`: schedule independence with read-shared cells (a thread's footprint of
       cells that no other thread writes); `read_shared_schedule_independent`: histories in which no thread
-      writes a cell after thread creation; `api_readers_schedule_independent` for the API model.
+      writes a cell after thread creation; `api_readers_schedule_independent` and
+      `api_schedule_independent` (no other thread writes a cell that `t`'s calls touch) for the API model.
 -/
 import Mpir.Model.Threads
 import Mpir.Gen.Globals
@@ -199,6 +200,68 @@ theorem api_readers_schedule_independent (sched : List (Nat × ApiCall)) (s : Sy
     obtain ⟨q, hq, rfl⟩ := List.mem_map.mp hp
     exact apiOp_preserves_all q.2 (hro q hq)) t
   exact ⟨h.1, h.2.1⟩
+
+theorem setCell_agree (F : Cell → Prop) (c c' : Cells) (y : Cell) (v : Nat) (h : ∀ x, F x → c x = c' x) :
+    ∀ x, F x → setCell c y v x = setCell c' y v x := by
+  intro x hx
+  simp only [setCell]
+  split
+  · rfl
+  · exact h x hx
+
+/-- an API call depends on the cells only through `apiReads`: on cells that agree there it observes the same
+    values and leaves every cell of a set `F` containing them in agreement -/
+theorem apiStep_respects (F : Cell → Prop) (a : ApiCall) (hr : ∀ x ∈ apiReads a, F x) (c c' : Cells)
+    (h : ∀ x, F x → c x = c' x) :
+    (apiStep c a).2 = (apiStep c' a).2 ∧ ∀ x, F x → (apiStep c a).1 x = (apiStep c' a).1 x := by
+  cases a <;> simp only [apiReads, List.mem_cons, List.not_mem_nil, or_false, forall_eq_or_imp, forall_eq] at hr
+  case setMemoryFunctions a r f =>
+    exact ⟨rfl, setCell_agree F _ _ _ _ (setCell_agree F _ _ _ _ (setCell_agree F _ _ _ _ h))⟩
+  case getMemoryFunctions => exact ⟨by simp [apiStep, h _ hr.1, h _ hr.2.1, h _ hr.2.2], fun x hx => h x hx⟩
+  case setDefaultPrec b => exact ⟨rfl, setCell_agree F _ _ _ _ h⟩
+  case getDefaultPrec => exact ⟨by simp [apiStep, h _ hr], fun x hx => h x hx⟩
+  case mpfInit => exact ⟨by simp [apiStep, h _ hr.1, h _ hr.2], fun x hx => h x hx⟩
+  case allocCycle => exact ⟨by simp [apiStep, h _ hr.1, h _ hr.2.1, h _ hr.2.2], fun x hx => h x hx⟩
+  case oldRandom =>
+    have e1 := h _ hr.1; have e2 := h _ hr.2.1; have e3 := h _ hr.2.2
+    simp only [apiStep, e1, e2, e3]
+    split
+    · exact ⟨by first | rfl | trivial, setCell_agree F _ _ _ _ (setCell_agree F _ _ _ _ h)⟩
+    · exact ⟨by first | rfl | trivial, setCell_agree F _ _ _ _ h⟩
+  case randsClear =>
+    have e1 := h _ hr.1; have e2 := h _ hr.2
+    simp only [apiStep, e1, e2]
+    refine ⟨by first | rfl | trivial, ?_⟩
+    split
+    · exact h
+    · exact setCell_agree F _ _ _ _ h
+  case readErrno => exact ⟨by simp [apiStep, h _ hr], fun x hx => h x hx⟩
+
+/-- The documented exceptions made precise, at the API level: if no OTHER thread performs a call that writes a cell
+    which thread `t`'s calls read or write (`F` ⊇ the cells `t` touches), then under every interleaving `t` observes
+    exactly what it observes running alone — e.g. one thread may use the obsolete random functions, or call
+    `mpf_set_default_prec`, as long as the others do not look at those cells. -/
+theorem api_schedule_independent (F : Cell → Prop) (t : Nat) (sched : List (Nat × ApiCall)) (s : SysC (List Nat) Unit)
+    (hown : ∀ p ∈ sched, p.1 = t → ∀ x, (x ∈ apiReads p.2 ∨ x ∈ apiWrites p.2) → F x)
+    (hoth : ∀ p ∈ sched, p.1 ≠ t → ∀ x ∈ apiWrites p.2, ¬ F x) :
+    (runSchedC s (sched.map (fun p => (p.1, apiOp p.2)))).heaps t =
+      (runAloneC s.shared s.cells (s.heaps t) (projC t (sched.map (fun p => (p.1, apiOp p.2))))).1 := by
+  refine (interleaving_irrelevant_cells F t _ s s.cells (fun _ _ => rfl) ?_ ?_).1
+  · intro p hp ht
+    obtain ⟨q, hq, rfl⟩ := List.mem_map.mp hp
+    intro sh c c' h hc
+    have r := apiStep_respects F q.2 (fun x hx => hown q hq ht x (Or.inl hx)) c c' hc
+    exact ⟨by simp [apiOp, r.1], r.2⟩
+  · intro p hp ht
+    obtain ⟨q, hq, rfl⟩ := List.mem_map.mp hp
+    intro sh c h x hx
+    exact apiStep_preserves c q.2 x (fun hw => hoth q hq ht x hw hx)
+
+-- non-vacuity: thread 1 uses the obsolete random function and changes the default precision; thread 0 only
+-- allocates and reads gmp_errno (F = the allocator cells and errno): thread 0 sees its solo values
+example : (runSchedC { heaps := fun _ => [], shared := (), cells := (apiStep cells0 (.setMemoryFunctions 1 2 1)).1 }
+    ([(0, ApiCall.allocCycle), (1, ApiCall.oldRandom), (1, ApiCall.setDefaultPrec 500), (0, ApiCall.readErrno), (0, ApiCall.getMemoryFunctions)].map
+      (fun p => (p.1, apiOp p.2)))).heaps 0 = [1, 2, 1, 0, 1, 2, 1] := by decide
 
 -- non-vacuity: precision set to 200 bits before thread creation; two threads call mpf_init / mpf_get_default_prec
 example : ((runSchedC { heaps := fun _ => [], shared := (), cells := (apiStep cells0 (.setDefaultPrec 200)).1 }
